@@ -52,6 +52,7 @@ class World:
         self.regions = {}
         self.fresh = 0
         self.points = {}
+        self.inside = set()  # (key of inner ring, key of outer ring): declared by the harness
 
     def region_of(self, ring, qkey, sign):
         """membership of query point `qkey` in the region bounded by `ring`"""
@@ -77,6 +78,11 @@ class World:
 
 
 WORLD = World()
+
+
+def mark_inside(inner_points, outer_points):
+    """harness declaration: the polygon with vertices `inner_points` lies strictly inside the other one"""
+    WORLD.inside.add((_key(_canon(_rows(inner_points))), _key(_canon(_rows(outer_points)))))
 
 
 def reset():
@@ -137,6 +143,10 @@ class ModelRing:
         self._ring = list(ring)
         self.coords = _Coords(self._ring)
 
+    @property
+    def is_ccw(self):
+        return bool(shoelace(self._ring) > 0)
+
 
 class ModelLineString(ModelRing):
     pass
@@ -146,6 +156,10 @@ class ModelPolygon:
     """closed exterior ring, no interiors"""
 
     def __init__(self, shell=None, holes=None):
+        if isinstance(shell, _Coords):
+            shell = _ring_array(list(shell))
+        elif isinstance(shell, list) and shell and isinstance(shell[0], tuple):
+            shell = _ring_array(shell)
         ring = _rows(shell)
         if len(ring) < 3:
             raise ValueError("A linearring requires at least 4 coordinates.")
@@ -153,11 +167,14 @@ class ModelPolygon:
             ring = ring + [ring[0]]
         self._ring = ring
         self.exterior = ModelRing(ring)
-        self.interiors = []
+        self.interiors = [ModelRing(_rows(h)) for h in (holes or [])]
         self.is_valid = True  # validity is GEOS' verdict: assumed (listed in the evidence)
         self.is_empty = False
-        if isinstance(shell, ModelPolygon) and getattr(shell, "_ccw_known", False):
-            self._ccw_known = True
+        if isinstance(shell, ModelPolygon):
+            # Polygon(polygon) is the same geometry, interior rings included
+            self.interiors = list(shell.interiors)
+            if getattr(shell, "_ccw_known", False):
+                self._ccw_known = True
 
     @property
     def area(self):
@@ -187,6 +204,12 @@ class ModelPolygon:
         ring = []
         for i in range(n):
             ring.append((Sc(z3.Real(f"setop{tag}_x{i}")), Sc(z3.Real(f"setop{tag}_y{i}"))))
+        if op == "difference" and (_key(_canon(other._ring)), _key(_canon(self._ring))) in WORLD.inside:
+            # the subtrahend lies strictly inside: the result is the minuend's outline with an interior ring
+            # (its exterior in whatever orientation the library chooses: not assumed)
+            res = ModelPolygon(_ring_array(ring), holes=[_ring_array(other._ring)])
+            WORLD.regions[_key(_canon(res._ring))] = (op, WORLD.reg(self._ring), WORLD.reg(other._ring))
+            return res
         res = ModelPolygon(_ring_array(ring))
         res._ccw_known = True
         # the unknown result ring is taken counter-clockwise (what orient() would make of it; the reversal
@@ -252,7 +275,7 @@ def orient(polygon, sign=1.0):
     a = shoelace(polygon._ring)
     neg = (a < 0) if sign >= 0 else (a > 0)
     if neg:
-        return ModelPolygon(_ring_array(polygon._ring[::-1]))
+        return ModelPolygon(_ring_array(polygon._ring[::-1]), holes=[_ring_array(r._ring) for r in polygon.interiors])
     return polygon
 
 
